@@ -12,6 +12,8 @@ import TypedpyModel.Lemmas.HashLemmas
 import TypedpyModel.Lemmas.CanonHash
 import TypedpyModel.Spec.Conforms
 import TypedpyModel.Generated.Wrappers
+import TypedpyModel.Sem.AliasC11
+import TypedpyModel.Generated.AliasingC11
 namespace Typedpy.Drive.Pairs
 open Lean (Json)
 open Typedpy Typedpy.Wire
@@ -72,14 +74,78 @@ def stepsJson (c : ClassOpts) (fields : List (String × FieldDecl)) (O : Oracles
     Inst → List Op → List Json
   | _, [] => []
   | x, op :: rest =>
-    let r := stepI Generated.nestedBound Generated.wrappers O c fields x op
+    let r := stepI Generated.nestedBound Generated.delitemHook Generated.wrappers O c fields x op
     Json.mkObj [("out", Mutate.outcomeJson r.2), ("state", instToJson r.1)] :: stepsJson c fields O r.1 rest
 
 def copyJson (R : Render) (defaults : EqCtx) (x y : Inst) : Json :=
   Json.mkObj [("state", instToJson y), ("eq", .bool (instEq defaults x y)),
               ("eqRev", .bool (instEq defaults y x)), ("key", .str (hashKey R y))]
 
+/-! ### heap requests: `copy.copy` / `copy.deepcopy` / pickle on the object graph read off the real instance -/
+
+open Typedpy.Alias Typedpy.AliasC11 in
+def itemOfJson (j : Json) : Except String Item :=
+  match j with
+  | .num n => pure (.atom n.mantissa)
+  | _ => do
+    let a ← (← j.getObjVal? "r").getNat?
+    pure (.ref a)
+
+open Typedpy.Alias Typedpy.AliasC11 in
+def cellOfJson (j : Json) : Except String Cell := do
+  let tag ← (← j.getObjVal? "t").getStr?
+  let items ← (← (← j.getObjVal? "i").getArr?).toList.mapM fun p => do
+    let a ← p.getArr?
+    pure ((← a[0]!.getStr?), (← itemOfJson a[1]!))
+  pure ⟨tag, items⟩
+
+open Typedpy.Alias in
+partial def treeToJson : Tree → Json
+  | .atom v => Json.num (Lean.JsonNumber.fromInt v)
+  | .cut => Json.str "cut"
+  | .node t ks => Json.mkObj [("t", .str t), ("k", Json.arr (ks.map fun p => Json.arr #[.str p.1, treeToJson p.2]).toArray)]
+
+/-- `sharedPaths` with the tag of the shared cell (the harness leaves immutable containers out on both sides) -/
+def sharedPathsT : Nat → Typedpy.Alias.Heap → List Nat → List String → Typedpy.Alias.Item → List (List String × String)
+  | _, _, _, _, .atom _ => []
+  | 0, h, shared, path, .ref a => if shared.contains a then [(path.reverse, (h.cells a).tag)] else []
+  | n + 1, h, shared, path, .ref a =>
+    (if shared.contains a then [(path.reverse, (h.cells a).tag)] else []) ++
+      ((h.cells a).items.map fun p => sharedPathsT n h shared (p.1 :: path) p.2).flatten
+
+open Typedpy.Alias Typedpy.AliasC11 in
+def copyOpOfStr (s : String) : Except String CopyOp :=
+  if s == "copy" then pure .copy else if s == "deepcopy" then pure .deepcopy
+  else if s == "pickle" then pure .pickle else throw s!"pairs: unknown copy op {s}"
+
+open Typedpy.Alias Typedpy.AliasC11 in
+def runHeap (j : Json) : Except String Json := do
+  let cells ← (← (← j.getObjVal? "cells").getArr?).toList.mapM cellOfJson
+  let depth ← (← j.getObjVal? "depth").getNat?
+  let h := Heap.ofList cells
+  let probes ← (← (← j.getObjVal? "probes").getArr?).toList.mapM fun p => do
+    pure ((← (← p.getObjVal? "root").getNat?), (← copyOpOfStr (← (← p.getObjVal? "op").getStr?)))
+  let outs := probes.map fun (root, op) =>
+    let real := copyOp Generated.copyRows op false 64 h root
+    let strict := match op with
+      | .copy => false
+      | _ => (copyOp Generated.copyRows op true 64 h root).2.isSome
+    match real with
+    | (h', some y) =>
+      let old := reachList depth h (.ref root)
+      Json.mkObj [("ok", .bool true), ("strict", .bool strict),
+        ("shared", Json.arr ((sharedPaths depth h' old [] y).map fun path => Json.arr (path.map Json.str).toArray).toArray),
+        ("sharedT", Json.arr ((sharedPathsT depth h' old [] y).map fun pt =>
+            Json.arr #[Json.arr (pt.1.map Json.str).toArray, Json.str pt.2]).toArray),
+        ("unchanged", .bool (sameBelow h.next h h')),
+        ("same", .bool (match y with | .ref a => a == root | _ => false)),
+        ("tree", treeToJson (observeN depth h' y)),
+        ("origTree", treeToJson (observeN depth h' (.ref root)))]
+    | (_, none) => Json.mkObj [("ok", .bool false), ("strict", .bool strict)]
+  pure (Json.mkObj [("heap", Json.arr outs.toArray)])
+
 def run (j : Json) : Except String Json := do
+  if let some hj := optField j "heap" then return (← runHeap hj)
   let O ← oraclesOfJson j
   let R ← renderOfJson j
   let cls ← declOfJson (← j.getObjVal? "cls")
